@@ -94,21 +94,21 @@ type Engine struct {
 	closer  *client
 	epi     *client
 
-	pausing    bool
-	closing    bool
-	closed     bool
-	inSweep    bool
-	sweepStage int
-	inflight   int32
-	upmaxBusy  int32
-	seqNow     uint64
+	pausing        bool
+	closing        bool
+	closed         bool
+	inSweep        bool
+	sweepStage     int
+	inflight       int32
+	upmaxBusy      int32
+	seqNow         uint64
 	lastPolicyPush uint64 // seq at which the policy goroutine last recorded a batch
 	lastClearInv   uint64 // seq of the latest Clear invocation
-	keyHash    []uint64
-	keyConf    []uint64
-	pendingNew map[uint64]int // buffered new items per key hash (probes only)
-	pendQ      map[uint64][]*Val
-	curNew     *Val // value carried by the new item the applier is deciding on (nil if unknown)
+	keyHash        []uint64
+	keyConf        []uint64
+	pendingNew     map[uint64]int // buffered new items per key hash (probes only)
+	pendQ          map[uint64][]*Val
+	curNew         *Val // value carried by the new item the applier is deciding on (nil if unknown)
 
 	joinWG *sync.WaitGroup
 
@@ -578,8 +578,10 @@ func (e *Engine) Run(plan *Plan, dec *core.Decider) *RunResult {
 	e.sim = sim
 	core.S = sim
 	sim.YieldFilter = e.onYield
+	sim.NotifySite = siteDelSent
 	if plan.Flags.Race {
 		sim.YieldFilter = raceYieldFilter
+		sim.NotifySite = -1
 	}
 	e.picker = core.NewPicker(plan.Sim.Sched, dec)
 
@@ -803,11 +805,26 @@ func (e *Engine) release(t *core.Task) {
 		notePair(e.lastSite, t.Site)
 	}
 	e.sim.Release(t, gate)
+	if atomic.LoadInt32(&e.sim.Notifies) != 0 {
+		e.flushNotifies()
+	}
 	if t.State() == core.StRunning && (t.Site == ristretto.VerifSiteDelSend || t.Site == ristretto.VerifSiteWaitSend) {
 		probe(PrDelBlocked) // blocked on a full write buffer
 	}
 	e.lastOrd, e.lastSite = t.Ord, t.Site
 	workerProgress.Add(1)
+}
+
+// flushNotifies logs, from the scheduler goroutine and in task order, the
+// tombstones queued during the step that has just settled.
+func (e *Engine) flushNotifies() {
+	atomic.StoreInt32(&e.sim.Notifies, 0)
+	for _, t := range e.sim.Tasks() {
+		if t.Notify && t.State() == core.StParked && t.Site == siteDelSent {
+			t.Notify = false
+			e.log(Ev{Kind: EvHook, Op: evDelQueued, Key: e.logicalKey(t.Key), H: t.Key, Task: -1})
+		}
+	}
 }
 
 // schedule runs tasks until done() holds. fair: uniform picks, no clock or
